@@ -50,6 +50,13 @@ mod netconf;
 mod policies;
 mod task;
 
+/// Verification hooks (only built with `--cfg bgpfu_verif`).
+#[cfg(bgpfu_verif)]
+pub mod verif {
+    pub use crate::policies::verif::*;
+    pub use crate::task::verif::*;
+}
+
 // silence unused dev-dependency warnings
 #[cfg(test)]
 mod deps {
